@@ -337,7 +337,7 @@ def jacimpl_case(ctx, S, rng, kmax, k_fixed=None):
 
 
 def run(tier, seed):
-    ctx = core.Ctx(PROP, tier, seed, "proof", ["C12", "C12b", "C12c", "C12d", "C12e", "C10", "C10b"])
+    ctx = core.Ctx(PROP, tier, seed, "proof", ["C12", "C12b", "C12c", "C12d", "C12e", "C12f", "C10", "C10b"])
     ctx.axioms = core.audit(ctx.modules)
     import pyqsp.sym_qsp_opt as S
     q = tier == "quick"
